@@ -302,31 +302,39 @@ func (b Branch) CopyEmpty() *Branch {
 	}
 }
 
+// IntersectHash returns the hash of the last header that the chains ending in the two branches have
+// in common, or nil if they don't share an ancestor branch. The branches can be ancestors of each
+// other, siblings or more distant relatives.
 func (b *Branch) IntersectHash(other *Branch) *bitcoin.Hash32 {
-	current := b
-	for {
-		if current.parent == nil {
-			break
-		}
-
-		if current.parent == other {
-			return &current.firstHeader.PrevBlock
-		}
-
-		current = current.parent
+	type link struct {
+		height int             // height of the highest header in the branch that is in the chain
+		hash   *bitcoin.Hash32 // hash of that header
 	}
 
-	current = other
-	for {
-		if current.parent == nil {
-			break
+	// For each branch in the ancestry of "other", the highest header that is part of its chain.
+	otherLinks := make(map[*Branch]link)
+	height := other.Height()
+	hash := &other.Last().Hash
+	for current := other; current != nil; current = current.parent {
+		otherLinks[current] = link{height: height, hash: hash}
+		height = current.parentHeight
+		hash = &current.firstHeader.PrevBlock
+	}
+
+	// Find the first branch in the ancestry of "b" that is also in the ancestry of "other". The
+	// chains split in that branch at the lower of the heights at which they leave it.
+	height = b.Height()
+	hash = &b.Last().Hash
+	for current := b; current != nil; current = current.parent {
+		if otherLink, exists := otherLinks[current]; exists {
+			if otherLink.height < height {
+				return otherLink.hash
+			}
+			return hash
 		}
 
-		if current.parent == b {
-			return &current.firstHeader.PrevBlock
-		}
-
-		current = current.parent
+		height = current.parentHeight
+		hash = &current.firstHeader.PrevBlock
 	}
 
 	return nil
